@@ -42,6 +42,7 @@ CALLEE = ('on:\n  workflow_call:\n    inputs:\n      need:\n        type: string
           '      nd:\n        type: string\n        required: true\n        default: null\n'
           "      ed:\n        type: string\n        required: true\n        default: ''\n      bd:\n        type: string\n        required: true\n        default:\n"
           "      xr:\n        type: string\n        required: ${{ github.event_name == 'push' }}\n"
+          '      rc:\n        type: string\n        required: True\n      ry:\n        type: string\n        required: yes\n'
           '    secrets:\n      tok:\n        required: true\n    outputs:\n      out1:\n        value: ${{ jobs.x.outputs.o }}\n      out2:\n      out3: {}\n'
           'jobs:\n  x:\n    runs-on: lab-a\n    outputs:\n      o: v\n    steps:\n      - run: echo ${{ vars.NOPE1 }}\n')
 
